@@ -11,41 +11,6 @@ namespace Aegean.C16
 open Real
 open Aegean.Model
 
-/-- `arcsin` already clamps its argument to [−1, 1], so the clamp that the repaired `translate` applies
-    before `arcsin` (against rounding at the poles) is the identity over ℝ — for EVERY argument -/
-theorem arcsin_clamp (S : ℝ) : Real.arcsin (min 1 (max (-1) S)) = Real.arcsin S := by
-  rcases le_total S (-1) with h | h
-  · rw [max_eq_left h, min_eq_right (by norm_num), Real.arcsin_of_le_neg_one h, Real.arcsin_neg_one]
-  · rw [max_eq_right h]
-    rcases le_total S 1 with h1 | h1
-    · rw [min_eq_right h1]
-    · rw [min_eq_left h1, Real.arcsin_of_one_le h1, Real.arcsin_one]
-
-theorem gcdSep_eq_hand (ra1 dec1 ra2 dec2 : ℝ) :
-    Gen.C16.gcdSep ra1 dec1 ra2 dec2 = C16Hand.gcdSep ra1 dec1 ra2 dec2 := by
-  try simp only [Gen.C16.gcdSep, C16Hand.gcdSep, R.real_npow, R.real_sin, R.real_cos, R.real_ofNat,
-    R.real_radians, R.real_degrees, R.real_asin, R.real_min, R.real_sqrt]
-  try ring_nf
-
-theorem bear_eq_hand (ra1 dec1 ra2 dec2 : ℝ) :
-    Gen.C16.bear ra1 dec1 ra2 dec2 = C16Hand.bear ra1 dec1 ra2 dec2 := by
-  try simp only [Gen.C16.bear, C16Hand.bear, R.real_sin, R.real_cos, R.real_ofNat, R.real_radians,
-    R.real_degrees, R.real_atan2]
-  try ring_nf
-
-theorem translateDec_eq_hand (ra dec r theta : ℝ) :
-    Gen.C16.translateDec ra dec r theta = C16Hand.translateDec ra dec r theta := by
-  try simp only [Gen.C16.translateDec, C16Hand.translateDec, R.real_sin, R.real_cos, R.real_ofNat,
-    R.real_radians, R.real_degrees, R.real_asin, R.real_min, R.real_max, Nat.cast_one, arcsin_clamp]
-  try ring_nf
-
-theorem translateRa_eq_hand (ra dec r theta : ℝ) :
-    Gen.C16.translateRa ra dec r theta = C16Hand.translateRa ra dec r theta := by
-  try simp only [Gen.C16.translateRa, C16Hand.translateRa, C16Hand.translateDec, R.real_sin, R.real_cos,
-    R.real_ofNat, R.real_radians, R.real_degrees, R.real_asin, R.real_atan2, R.real_min, R.real_max,
-    Nat.cast_one, arcsin_clamp]
-  try ring_nf
-
 /-! ### periodicity in right ascension -/
 
 theorem sin_sq_half_turns (x : ℝ) (n : ℤ) : sin (x + n * π) ^ 2 = sin x ^ 2 := by
